@@ -603,7 +603,8 @@ def _tt_plans(P, problem, rng, k):
 
 
 def worker(job):
-    cid, slice_, P, L, k, seed, limit = job
+    cid, slice_, P, L, k, seed, limit = job[:7]
+    force_env = job[7] if len(job) > 7 else None
     rng = random.Random(seed)
     rec = {"cid": cid, "slice": slice_, "P": P, "skip": "", "safe": 0, "R": None, "plans": [], "constructs": [], "fresh_env": False}
     try:
@@ -611,7 +612,7 @@ def worker(job):
         cs = constructs_of(P)
         rec["constructs"] = cs or []
         # ANMLReader(env) with a fresh Environment: only on problems free of unparsable constructs (unambiguous signature)
-        rec["fresh_env"] = cs == [] and cid % 8 == 7
+        rec["fresh_env"] = (cs == [] and cid % 8 == 7) if force_env is None else bool(force_env)
         R, problem = round_trip(P, limit, fresh_env=rec["fresh_env"])
         if R["skip"]:
             rec["skip"] = R["skip"]
@@ -883,3 +884,18 @@ def selftest(ctx):
     ok = all(v[1] > 0 for v in kinds.values()) and len(kinds) >= 3
     print("selftest %s" % ("ok" if ok else "FAILED: a corruption kind was never rejected (%r)" % [names[c] for c in missed]))
     return 0 if ok else 2
+
+
+# ----------------------------------------------------------------------------------------
+# replay (./check C19 --replay replay/C19/<hash>.json): the recorded problem through the same pipeline
+# ----------------------------------------------------------------------------------------
+def replay(ctx, rep):
+    d = rep["data"]
+    rec = worker((1, d.get("slice", "num"), d["problem"], 3, 3, 0, 400, d.get("read_with_fresh_environment", False)))
+    if rec["skip"]:
+        print("replay: problem skipped (%s)" % rec["skip"])
+        return 2
+    judge_and_report(ctx, [rec], 3)
+    sigs = sorted({v.sig for v in ctx.violations})
+    print("replay: recorded signature %s; signatures now: %s" % (rep["signature"], sigs or "none"))
+    return 1 if rep["signature"] in sigs else 0
